@@ -261,28 +261,57 @@ def r07_4(ctx, fx):
 
 
 def r07_7(ctx, fx):
-    """never before the matching established event: inside TransportManager::next the result of TransportManager::on_connection_closed
-    (the application-level ConnectionClosed) is looked at only where peer and connection id were taken out of a ConnectionClosed event
-    (the close report of the connection task).  The
-    other call sites are rollbacks of connections that were never announced; their result must stay unused."""
+    """ConnectionClosed reaches the application exactly for announced peers.  Inside TransportManager::next the result of
+    TransportManager::on_connection_closed (Some = the peer has no connection left) is turned into an application event
+      (a) where peer and connection id were taken out of a ConnectionClosed event (the close report of the connection task), or
+      (b) in a rollback arm, only behind a lookup in the manager's own record of announced peers (a rolled-back connection was never
+          announced itself, but it may have been promoted while the announced one closed).
+    A rollback that forwards its result unconditionally reports a close without an established event (round-3 seed); the asynchronous
+    rollback (pending_accept Err arm) that drops its result unconditionally loses the close event of an announced peer (F27)."""
     fn = ctx.fn(fx, "transport::manager::TransportManager::next::{closure#0}", "R07.7")
     if fn is None:
         return
     calls = fn.calls(r"TransportManager::on_connection_closed$")
     ctx.anchor("R07.7", "next: on_connection_closed calls", len(calls), 3, cfg=fx.cfg)
     inspected = 0
+    # lookups in a collection held by the manager, keyed by the peer: the record of announced peers
+    lookups = [c for c in fn.calls(r"Hash(Map|Set)(<.*>)?::(remove|get|contains_key|contains)$") if re.search(r"\{self\}\*?\.\w+$", fn.recv(c))
+               and not re.search(r"\.(peers|protocols|transports|pending_connections|opening_errors|listen_addresses)$", fn.recv(c))]
+    guard_edges = set()
+    for lk in lookups:
+        for sw in fn.discr_switches():
+            if sw[1] and lk.dest and sw[1][0] in fn.copies_of(lk.dest[0]) | {lk.dest[0]}:
+                for lab in fn.variant_edges(sw, "Some"):
+                    guard_edges.add((sw[0], lab))
+        for sw_, t, f in (fn.bool_tests(lk.dest[0]) if lk.dest else []):
+            guard_edges.add((sw_, t))
+    evs = [n for n, _ in fn.aggregates(r"transport::TransportEvent$", "ConnectionClosed")]
     for i, c in enumerate(calls):
         d = c.dest[0] if c.dest else None
-        if d is None or (d != 0 and not local_used(fn, d)):
-            continue
-        inspected += 1
         org = [fn.origin(a) for a in c.args[1:]]
-        ok = len(org) == 2 and all("@ConnectionClosed." in o for o in org)
-        ctx.ob("R07.7", "next/on_connection_closed#%d-result-used-only-for-the-transport's-ConnectionClosed" % i, ok, site=fn.site(c.node), cfg=fx.cfg,
-               detail="peer and connection id must come out of a ConnectionClosed event (the connection task's own close report); a ConnectionClosed handed to the "
-                      "application from a rollback path reports a connection that was never announced as established; argument origins: %s" % org)
+        from_event = len(org) == 2 and all("@ConnectionClosed." in o for o in org)
+        used = d is not None and (d == 0 or bool(local_used(fn, d)))
+        if from_event:
+            inspected += 1 if used else 0
+            continue
+        region = fn.reach([c.node], after=True, stop=_event_ends(fn, c.node))
+        is_async_rollback = any("@Ready.0@_0." in o for o in org)   # arguments come out of the pending_accept branch of the select
+        if used:
+            mine = [e for e in evs if e in region]
+            exits_direct = [x for x, sh in fn.exits() if x in region and any("call:" in s_ and "on_connection_closed" in s_ for s_ in sh)]
+            ok = bool(guard_edges) and not exits_direct and all(e not in fn.reach([c.node], after=True, cut=guard_edges, stop=_event_ends(fn, c.node)) for e in mine)
+            ctx.ob("R07.7", "next/on_connection_closed#%d-rollback-result-forwarded-only-for-an-announced-peer" % i, ok, site=fn.site(c.node), cfg=fx.cfg,
+                   detail="argument origins %s; announced-peer lookups: %d; ConnectionClosed events built in this arm: %d" % (org, len(lookups), len(mine)))
+        elif is_async_rollback:
+            ctx.ob("R07.7", "next/pending_accept-rollback#%d-does-not-drop-the-close-of-an-announced-peer" % i, False, site=fn.site(c.node), cfg=fx.cfg,
+                   detail="the result of the rollback is discarded: if the rolled-back connection had been promoted while the announced connection closed, "
+                          "the application never sees ConnectionClosed although no connection is left")
     ctx.ob("R07.7", "next/transport-ConnectionClosed-result-is-forwarded", inspected >= 1, site=fn.site(fn.entry), cfg=fx.cfg,
            detail="call sites whose result is inspected: %d" % inspected)
+
+
+def _event_ends(fn, start):
+    return set(fn.return_nodes()) | {start} | {sw[0] for sw in fn.discr_switches() if sw[2].endswith("__tokio_select_util::Out")}
 
 
 def run(ctx):
